@@ -3,7 +3,7 @@ import Hive.Proofs.SyncMutexDag
 import Hive.Proofs.SyncMutexWait
 import Hive.Gen.C17_Skel
 import Hive.Proofs.SyncMutexExec
-import Hive.Proofs.SyncMutexComp7
+import Hive.Proofs.SyncMutexComp8
 import Hive.Proofs.SyncMutexWaitV
 /-!
 # C17 — Starving/DAG mutexes: exclusion, no lost wake-up, condition waits
@@ -352,7 +352,8 @@ theorem C17_dag_unlock_wrong_mode_old_witness :
 `Hive/Model/SyncMutexComp.lean`: the registry mutex `d.Mutex`, the maps `mutexes`/`consumerCounter`, a heap
 of StarvingMutex objects each stepped by the monitor protocol `mxStep` (the very transition function of
 the StarvingMutex theorems above), registration before blocking, `RLock` acquiring its ids in argument
-order, the last consumer detaching the entity's object and unlocking it afterwards.  The theorems below are
+order, `Unlock`/`RUnlock` looking the mutexes up, unlocking them and only then unregistering (the repair of the
+"registry modified before the panic" finding), the last consumer detaching the entity's object.  The theorems below are
 about this composed system directly — no abstract reader/writer lock, and `Stuck` is the real one (a reader
 parked behind a queued writer is not enabled). -/
 
@@ -399,17 +400,78 @@ theorem C17_dag_composed_no_panic {scripts : List (List Dag.DOp)} (hwb : Dag.WBD
     have := (h.obj t.cur).loc (proj t.cur t) (List.mem_map.mpr ⟨t, ht, rfl⟩)
     simp [proj, vinv, hd] at this
 
-/-- **Known finding, exhibited on the model of the code as it is** (`known_findings/C17.json`, trigger
-`earlier-ids-unregistered`): `RLock(1); RUnlock(1, 2)` panics at entity 2 ("called … too often") *after* entity 1 has
-been unregistered — its consumer count is 0 and it has no mutex any more, although the StarvingMutex object it had is
-still read-locked and the goroutine still records the hold; a `Lock(1)` by another goroutine then creates a fresh
-mutex and is granted alongside that read hold.  (A witness by evaluation of one schedule, not a general claim; the
-harness replays the same calls on the real DAGMutex: `seq dagc rlock:1 runlock:1,2 lock:1`.) -/
-theorem C17_dag_misuse_panic_registry_witness :
+open Comp in
+/-- **Unlocking something that is not held panics instead of corrupting state — DAGMutex** (the repair of the finding
+"`Unlock`/`RUnlock` modify the registry before they panic").  From *any* state (no assumption on the scripts: misuse
+is the case in which the invariants above do not hold):
+
+1. `Unlock(x)` of an entity without a mutex panics in its lookup section; the whole state is as it was before the call
+   (`d.Mutex` released again).
+2. `RUnlock(xs...)` panics in its lookup section — again with the whole state untouched — exactly when some id has no
+   mutex or occurs in `xs` more often than it is registered (`consumerCounter`).
+3. Registry frame: `mutexes`, `consumerCounter` and the allocation of mutex objects change only inside the bodies of
+   `registerMutex(es)` and of `unregisterMutexes` (`regSection`); in particular not while a goroutine is inside
+   `Unlock`/`RUnlock` before its final `unregisterMutexes` (`inRelease`: the lookup and every `StarvingMutex.Unlock`/
+   `RUnlock` it issues), and there a StarvingMutex step touches only the object it runs on.
+4. The wrong-mode case: the step in which `StarvingMutex.Unlock`/`RUnlock` panics changes nothing at all (it is the
+   failing guard; `C17_unlock_unheld_panics`), so a wrong-mode `Unlock(x)` leaves the registry and every entity's
+   `(writer, readers)` as before the call, and a wrong-mode panic at the k-th id of `RUnlock(ids…)` leaves the k−1 read
+   locks before it released and *all* registrations in place — exactly what the repaired code guarantees (the
+   over-counted consumers can never lead to a wrong grant: `C17_dag_misuse_panic_fixed_witness`).
+5. The final `unregisterMutexes` (`unregA`/`runregA`) is entered only by a normal return of the last StarvingMutex
+   unlock of the call (or directly, by `RUnlock()` without ids). -/
+theorem C17_dag_misuse_panic_preserves_state (s : CSh) (t : CTh) :
+    (∀ x, t.ctl = .unlockC x → s.ent x = none →
+      Comp.step s t = [({ s with dm := false }, { t with ctl := .dead })]) ∧
+    (∀ xs, t.ctl = .runlockC xs →
+      ((∃ x ∈ xs, s.ent x = none ∨ s.cnt x < xs.count x) ↔
+        Comp.step s t = [({ s with dm := false }, { t with ctl := .dead })])) ∧
+    (∀ s' t', (s', t') ∈ Comp.step s t → regSection t = false →
+      s'.ent = s.ent ∧ s'.cnt = s.cnt ∧ s'.next = s.next) ∧
+    (inRelease t = true → regSection t = false) ∧
+    (∀ k s' t', t.ctl = .inner k → (s', t') ∈ Comp.step s t → ∀ o, o ≠ t.cur → s'.heap o = s.heap o) ∧
+    (∀ k s' t', t.ctl = .inner k → (s', t') ∈ Comp.step s t → t'.ipc = .dead →
+      s' = s ∧ (t.ipc = .ulC ∨ t.ipc = .ruC)) ∧
+    (∀ s' t', (s', t') ∈ Comp.step s t → t.ctl ≠ t'.ctl →
+      ((∀ x, t'.ctl = .unregA x → t.ctl = .inner (.ul x) ∧ t.ipc = .idle) ∧
+       (∀ xs, t'.ctl = .runregA xs → (t.ctl = .inner (.ru [] xs) ∧ t.ipc = .idle) ∨ (t.ctl = .runlockC xs ∧ xs = [])))) := by
+  refine ⟨?_, ?_, fun s' t' hm hr => step_registry_frame hm hr, inRelease_not_regSection,
+    fun k s' t' hc hm => step_inner_frame hc hm, fun k s' t' hc hm h1 => step_inner_panic hc hm h1, ?_⟩
+  · intro x hc he
+    simp [Comp.step, hc, he]
+  · intro xs hc
+    have hl := lookAll_none_iff s xs []
+    simp only [List.count_nil, Nat.zero_add] at hl
+    rw [← hl]
+    constructor
+    · intro h; simp [Comp.step, hc, h]
+    · intro h
+      cases hla : lookAll s [] xs with
+      | none => rfl
+      | some os =>
+        exfalso
+        cases os <;> simp [Comp.step, hc, hla, startInner] at h
+  · intro s' t' hm hne
+    exact step_enters_unreg hm hne
+
+/-- The sequences of the former known finding, on the model of the repaired code (evaluation of one schedule each, a
+witness, not a general claim; the harness replays the same calls on the real DAGMutex: `seq dagc rlock:1 runlock:1,2
+lock:1`, `seq dagc rlock:1 unlock:1`).  (a) `RLock(1); RUnlock(1, 2)` panics at the unregistered entity 2 with entity 1
+still registered (count 1, its mutex object 0 still read-locked, `d.Mutex` free) and a `Lock(1)` by another goroutine
+registers (count 2) and is parked on that same object — it is *not* granted.  (b) `RLock(1); Unlock(1)` panics inside
+`StarvingMutex.Unlock` (wrong mode) with the registration and the read lock in place. -/
+theorem C17_dag_misuse_panic_fixed_witness :
     let c := Conc.runSched Comp.sys (Comp.initCfg [[.rlock [1], .runlock [1, 2]], [.lock 1]])
-      (List.replicate 9 (0, 0) ++ List.replicate 7 (1, 0))
-    c.2.map (fun t => (t.ctl, t.held)) = [(.dead, [(1, .r)]), (.idle, [(1, .w)])] ∧
-      (c.1.heap 0).readers = 1 ∧ (c.1.heap 1).writer = true ∧ c.1.ent 1 = some 1 ∧ c.1.cnt 1 = 1 ∧ c.1.dm = false := by
+      (List.replicate 9 (0, 0) ++ List.replicate 6 (1, 0))
+    c.2.map (fun t => (t.ctl, t.ipc, t.held)) = [(.dead, .idle, [(1, .r)]), (.inner .done, .lkP, [])] ∧
+      (c.1.heap 0).readers = 1 ∧ (c.1.heap 0).writer = false ∧ c.1.ent 1 = some 0 ∧ c.1.cnt 1 = 2 ∧ c.1.dm = false := by
+  decide
+
+/-- Part (b) of the witness above: the wrong-mode `Unlock`. -/
+theorem C17_dag_misuse_panic_wrong_mode_witness :
+    let c := Conc.runSched Comp.sys (Comp.initCfg [[.rlock [1], .unlock 1]]) (List.replicate 11 (0, 0))
+    c.2.map (fun t => (t.ctl, t.ipc, t.held)) = [(.inner (.ul 1), .dead, [(1, .r)])] ∧
+      (c.1.heap 0).readers = 1 ∧ (c.1.heap 0).writer = false ∧ c.1.ent 1 = some 0 ∧ c.1.cnt 1 = 1 ∧ c.1.dm = false := by
   decide
 
 /-- Non-vacuity: goroutine 0 holds entity 1 for writing and is parked in `RLock` of entity 2, which
@@ -602,15 +664,16 @@ theorem C17_skeleton_starvingmutex :
   decide
 
 open Hive.Gen.C17Skel in
-/-- `DAGMutex`: registration and unregistration are critical sections of `d.Mutex` without blocking calls; the entity mutexes are locked/unlocked outside of them, `RLock` in the order of the arguments. -/
+/-- `DAGMutex`: registration, lookup and unregistration are critical sections of `d.Mutex` without blocking calls; the entity mutexes are locked/unlocked outside of them, `RLock` in the order of the arguments; `Unlock`/`RUnlock` unregister last. -/
 theorem C17_skeleton_dagmutex :
     skel_DAGMutex_RLock = ["helper registerMutexes", "for{", "rlock mutex", "}for"] ∧
-    skel_DAGMutex_RUnlock = ["helper unregisterMutexes", "for{", "runlock mutex", "}for"] ∧
+    skel_DAGMutex_RUnlock = ["helper lookupMutexes", "for{", "runlock mutex", "}for", "helper unregisterMutexes"] ∧
     skel_DAGMutex_Lock = ["lock d.Mutex", "unlock d.Mutex", "lock mutex"] ∧
-    skel_DAGMutex_Unlock = ["lock d.Mutex", "helper unregisterMutex", "if{", "unlock d.Mutex", "return", "}if", "unlock d.Mutex", "unlock mutex"] ∧
+    skel_DAGMutex_Unlock = ["lock d.Mutex", "unlock d.Mutex", "if{", "}if", "unlock mutex", "helper unregisterMutexes"] ∧
     skel_DAGMutex_registerMutexes = ["lock d.Mutex", "defer unlock d.Mutex", "for{", "}for", "return"] ∧
-    skel_DAGMutex_unregisterMutexes = ["lock d.Mutex", "defer unlock d.Mutex", "for{", "helper unregisterMutex", "if{", "}if", "}for", "return"] ∧
-    skel_DAGMutex_unregisterMutex = ["if{", "}if", "if{", "return", "}if", "helper Set", "return"] := by
+    skel_DAGMutex_lookupMutexes = ["lock d.Mutex", "defer unlock d.Mutex", "for{", "if{", "}if", "}for", "return"] ∧
+    skel_DAGMutex_unregisterMutexes = ["lock d.Mutex", "defer unlock d.Mutex", "for{", "helper unregisterMutex", "}for"] ∧
+    skel_DAGMutex_unregisterMutex = ["if{", "}if", "if{", "return", "}if", "helper Set"] := by
   decide
 
 open Hive.Gen.C17Skel in
